@@ -23,6 +23,19 @@ def sh(cmd, cwd=None, env=None, timeout=3600):
     return p.returncode, p.stdout.decode("utf8", "replace")
 
 
+def _merge_write(rpath, sid, entry):
+    """several runs of this tool may be active: re-read the file under a lock and replace one entry"""
+    import fcntl
+
+    with open(rpath + ".lock", "w") as lk:
+        fcntl.flock(lk, fcntl.LOCK_EX)
+        cur = json.load(open(rpath)) if os.path.exists(rpath) else {}
+        cur[sid] = entry
+        tmp = rpath + ".tmp%d" % os.getpid()
+        json.dump(cur, open(tmp, "w"), indent=1, sort_keys=True)
+        os.replace(tmp, rpath)
+
+
 def main():
     args = [a for a in sys.argv[1:] if not a.startswith("--")]
     flags = {a for a in sys.argv[1:] if a.startswith("--")}
@@ -54,6 +67,7 @@ def main():
             if rc:
                 entry["apply"] = "FAILED: " + out[-300:]
                 results[sid] = entry
+                _merge_write(rpath, sid, entry)
                 print(sid, "patch does not apply")
                 continue
             env = dict(os.environ, VERIF_REPO=wt)
@@ -82,7 +96,7 @@ def main():
             sh("git -C /repo worktree remove --force %s" % wt)
             shutil.rmtree(wt, ignore_errors=True)
         results[sid] = entry
-        json.dump(results, open(rpath, "w"), indent=1, sort_keys=True)
+        _merge_write(rpath, sid, entry)
         if "--baseline" in flags or "--demo" in flags:
             prev = meta.get("verified", {})
             prev.update({k: v for k, v in entry.items() if k not in ("property", "summary")})
